@@ -5,8 +5,12 @@ package main
 // more times with orders chosen by the tape. Everything observable must be identical.
 
 import (
+	"bytes"
+	"encoding/json"
 	"fmt"
 	"net/http"
+	"os"
+	osexec "os/exec"
 	"net/http/httptest"
 	"net/url"
 	"sort"
@@ -169,7 +173,14 @@ func (g *zgen) jsonObj(depth int) string {
 // snippet emits a few lines that display something.
 func (g *zgen) snippet(lines *[]string, usesJSON *bool) {
 	add := func(s string) { *lines = append(*lines, s) }
-	switch g.t.Draw(10) {
+	switch g.t.Draw(11) {
+	case 10: // display texts of objects, classes, methods, exceptions: nothing in them may depend on an address
+		cls := "类" + g.v()
+		add(fmt.Sprintf("定义%s：\n\t其名 = “n”\n\n\t如何叫？\n\t\t输出此\n", cls))
+		x := g.v()
+		add(fmt.Sprintf("令%s = （新建%s）", x, cls))
+		add(fmt.Sprintf("（显示：%s、%s、显示、取随机数、异常、以%s（叫）、【%s，%s】、【“物” = %s】）", x, cls, x, x, cls, x))
+		add("（显示：（新建异常：“文”））")
 	case 9: // values with no JSON form (objects of different classes, methods) inside dictionaries
 		*usesJSON = true
 		ca, cb := "类"+g.v(), "类"+g.v()
@@ -425,6 +436,38 @@ func c11Exec(w *zsim.World, sc *c11Scenario) string {
 	return "?"
 }
 
+// c11RefMain: `h C11ref` — executes one scenario (JSON on stdin) with the canonical order in
+// this fresh OS process and prints its outcome: addresses, time and process state differ from
+// the parent's, the outcome must not.
+func c11RefMain() {
+	var sc c11Scenario
+	if err := json.NewDecoder(os.Stdin).Decode(&sc); err != nil {
+		fmt.Fprintln(os.Stderr, err)
+		os.Exit(2)
+	}
+	w := zsim.NewWorld(zsim.NewTape(1))
+	w.Enter()
+	out := c11Exec(w, &sc)
+	w.Leave()
+	json.NewEncoder(os.Stdout).Encode(out)
+}
+
+func c11FreshProcess(sc *c11Scenario) (string, error) {
+	b, _ := json.Marshal(sc)
+	cmd := osexec.Command(os.Args[0], "C11ref")
+	cmd.Stdin = bytes.NewReader(b)
+	var out, errb bytes.Buffer
+	cmd.Stdout, cmd.Stderr = &out, &errb
+	if err := cmd.Run(); err != nil {
+		return "", fmt.Errorf("%v: %s", err, errb.String())
+	}
+	var res string
+	if err := json.Unmarshal(out.Bytes(), &res); err != nil {
+		return "", err
+	}
+	return res, nil
+}
+
 func runC11(t *zsim.Tape, cfg *hlib.Config) *hlib.Outcome {
 	K := cfg.Int("orders", 6)
 	g := &zgen{t: t}
@@ -462,6 +505,22 @@ func runC11(t *zsim.Tape, cfg *hlib.Config) *hlib.Outcome {
 	if strings.Contains(ref, "panic=\"") && !strings.Contains(ref, "panic=\"\"") {
 		// a host panic is C10's business; determinism is still checked below
 		out.Note["panic-seen"]++
+	}
+	// one scenario in sixteen is also executed in a second, freshly exec'ed OS process
+	if t.Draw(16) == 15 {
+		out.Note["cross-process-comparisons"]++
+		other, err := c11FreshProcess(sc)
+		if err != nil {
+			out.Sig = "harness:fresh-process-failed"
+			out.Detail = err.Error()
+			return out
+		}
+		if other != ref {
+			sc.Other = other
+			out.Sig = "cross-process:" + sc.Kind
+			out.Detail = fmt.Sprintf("the same scenario with the same (canonical) map order gives a different observable outcome in a fresh OS process: something depends on addresses, time or process state\n  this process : %s\n  fresh process: %s", ref, other)
+			return out
+		}
 	}
 	for k := 0; k < K; k++ {
 		w := zsim.NewWorld(t)
